@@ -366,6 +366,11 @@ class StreamReaderBufferedProtocol(asyncio.BufferedProtocol):
         already_written = self.__buffer_nbytes_written
         with memoryview(external_buffer) as external_buffer_view:
             data = bytes(external_buffer_view[:nbytes]) + bytes(self.__buffer_view[:already_written])
+        if len(data) > self.__buffer_view.nbytes:
+            # The caller's buffer was bigger than the protocol's one.
+            self.__buffer_view.release()
+            self.__buffer = bytearray(len(data) + self.max_size)
+            self.__buffer_view = memoryview(self.__buffer)
         self.__buffer_view[: len(data)] = data
         self.__buffer_nbytes_written = len(data)
         self._maybe_pause_transport()
